@@ -20,7 +20,7 @@ _C_FUNCS = ['create', 'free', 'readInstanceFile', 'readBasisFile', 'readSettings
 def _minima(tier):
     per_fn = 60 if tier == 'quick' else 1500
     m = {'calls.SoPlex_' + f: per_fn for f in _C_FUNCS}
-    m.update({'cases': 1500 if tier == 'quick' else 50000, 'oracle.twin_compared': 30000 if tier == 'quick' else 1000000,
+    m.update({'cases': 5000 if tier == 'quick' else 150000, 'oracle.twin_compared': 80000 if tier == 'quick' else 2500000,
               'solves.real': 300, 'solves.rational': 100, 'solves.with_iterations': 200, 'string.checked': 100,
               'args.negative_numerator': 200, 'args.denominator_one': 200, 'args.near_2^62': 100, 'args.zero_nonzeros': 100,
               'args.nnonzeros_larger_than_needed': 100, 'args.dim_larger_than_needed': 200, 'cases.ctest': 20,
@@ -40,7 +40,7 @@ PROPS = {
                    'getPrimalRationalString dim = numCols). Parameter values are restricted to a region without known solver crashes.',
         technique='runtime monitoring: differential twin execution (C handle vs C++ mirror) under ASan+UBSan+LSan with exact-length and canary-padded '
                   'arrays, allocation tracking per C call (leaks, allocator of returned strings), plus an -O2 volume run',
-        stages=two_flavour('h_capi', 900, 2400, 20000, 60000),
+        stages=two_flavour('h_capi', 1500, 4500, 40000, 120000),
         minima=_minima,
         eval_counter='cases', distinct_set='nontrivial',
         rule='case k -> (kind by k mod 16: general history | focus history for crash-prone functions | the C test program; sync/solve mode; '
